@@ -5,6 +5,8 @@ element's blocks, children, text and attributes, and outerHTML / innerHTML / tex
 The oracle drives a plain list-of-blocks reference document (c04_dom.RefDoc) with the same calls and compares,
 checks the frame condition and failure atomicity on snapshots of the real objects, and the serialisation laws.
 """
+import json
+
 from ..core import PropCheck, Case, sx, enc
 from . import c04_dom as D
 
@@ -237,7 +239,13 @@ class Check(PropCheck):
         return D.features(d)
 
     def shrink(self, d):
+        # candidates that were already offered are not offered again (the shrinker restarts after every success)
+        tried = self.__dict__.setdefault('_tried', set())
         for c in D.shrink(d):
+            k = json.dumps(c, sort_keys=True)
+            if k in tried:
+                continue
+            tried.add(k)
             if D.valid_case(c):
                 yield c
 
